@@ -14,7 +14,7 @@ RULES = [
     "rot_size", "rot_rot_same", "rot_rot_diff", "rot_const", "mask_shift", "eq_int", "or_eq0", "parity_int",
     "slice_full", "slice_int", "slice_slice", "slice_compose_in", "slice_compose_span", "slice_mem",
     "compose_adjacent", "compose_ints", "compose_mix", "compose_single", "cond_int", "cond_neg", "flatten", "fold_canon",
-    "shift_shift", "mul_one", "slice_of_op", "near_xor", "near_add_neg", "near_or_and", "near_eq", "near_rot",
+    "shift_shift", "mul_one", "slice_of_op", "near_xor", "near_add_neg", "near_or_and", "near_eq", "near_rot", "compose_adjacent_partial",
 ]
 
 
@@ -144,6 +144,17 @@ def rule_instance(rule, w, sub, kint):
             b = draw(st.one_of(st.just(a), st.just(a), sub(w)))
             s2 = draw(st.sampled_from([h, h, 0]))      # 0: adjacent in the slots but not in the source (must not be merged)
             return ["compose", [[["slice", a, 0, h], 0, h], [["slice", b, s2, s2 + (w - h)], h, w]]]
+        if rule == "compose_adjacent_partial" and w >= 16:
+            # two adjacent slices that together cover a whole narrower source, next to another slot
+            h = w // 2
+            q = draw(st.sampled_from([h // 2, 1, h - 1] if h > 2 else [1]))
+            a = draw(sub(h)) if h in (1, 8, 16, 32) else None
+            if a is None:
+                return None
+            other = draw(sub(h))
+            lo = [[["slice", a, 0, q], 0, q], [["slice", a, q, h], q, h], [other, h, w]]
+            hi = [[other, 0, h], [["slice", a, 0, q], h, h + q], [["slice", a, q, h], h + q, w]]
+            return ["compose", draw(st.sampled_from([lo, hi]))]
         if rule == "compose_ints" and w >= 8:
             h = draw(st.sampled_from(halves(w)))
             def kk(ww):
